@@ -29,19 +29,28 @@ pub struct GrepLine<'b> {
 
 impl GrepLine<'_> {
     fn expand_tabs(&mut self, tab_cfg: &tabs::TabCfg) {
-        let old_len = self.code.len();
-        self.code = tabs::expand(&self.code, tab_cfg).into();
-        let shift = self.code.len().saturating_sub(old_len);
-        // HACK: it is not necessarily the case that all submatch coordinates
-        // should be shifted in this way. It should be true in a common case of:
-        // (a) the only tabs were at the beginning of the line, and (b) the user
-        // was not searching for tabs.
+        if !tab_cfg.replace() {
+            return;
+        }
+        // Every tab before a position moves it by the growth of one tab.
+        let tabs: Vec<usize> = self
+            .code
+            .bytes()
+            .enumerate()
+            .filter(|(_, b)| *b == b'\t')
+            .map(|(i, _)| i)
+            .collect();
+        let shifted = |position: usize| {
+            let n_tabs = tabs.iter().take_while(|&&tab| tab < position).count();
+            position + n_tabs * tab_cfg.width() - n_tabs
+        };
         self.submatches = self.submatches.as_ref().map(|submatches| {
             submatches
                 .iter()
-                .map(|(a, b)| (a + shift, b + shift))
+                .map(|&(a, b)| (shifted(a), shifted(b)))
                 .collect()
         });
+        self.code = tabs::expand(&self.code, tab_cfg).into();
     }
 }
 
